@@ -108,13 +108,19 @@ def tagMap (ts : Tags) : Tags := ts.foldl (fun acc kv => insertTag kv acc) []
 def uninteresting : List String :=
   ["source", "source_ref", "source:ref", "history", "attribution", "created_by", "tiger:county", "tiger:tlid", "tiger:upload_uuid"]
 
-/-- `hasInterestingTags(tags, ignore)`; `ignore` is a map k → v where the value "true" ignores the key outright -/
+/-- the value a tag map has for a key, if it has the key -/
+def lookupTag (ts : Tags) (k : String) : Option String :=
+  match ts with
+  | [] => none
+  | (a, v) :: rest => if a = k then some v else lookupTag rest k
+
+/-- `hasInterestingTags(tags, ignore)`; a tag that `ignore` has with this very value adds nothing -/
 def hasInterestingTags (tags : Tags) (ignore : Option Tags) : Bool :=
   tags.any fun (k, v) =>
     !(uninteresting.contains k) &&
       match ignore with
       | none => true
-      | some ig => !(findTag ig k = "true" || findTag ig k = v)
+      | some ig => !(lookupTag ig k = some v)
 
 def metaKeys (m : Meta) : List String :=
   (if m.hasTimestamp then ["timestamp"] else []) ++ (if m.version ≠ 0 then ["version"] else []) ++
@@ -253,7 +259,7 @@ def buildPolygon (o : Opts) (d : Data) (r : RelationE) (skip : Skip) : Option Fe
       let polygon := [outerRing] ++ (join pp.inner).map (fun is => ringOf is (-1))
       match pp.outerWay with
       | some ow =>
-        if ¬ hasInterestingTags r.tags (some [("type", "true")]) then
+        if ¬ hasInterestingTags r.tags (some [("type", findTag r.tags "type")]) then
           mk (.polygon polygon) "way" ow.id (tagMap ow.tags) .way ow.md (pp.skip ++ [ow.id])
         else mk (.polygon polygon) "relation" r.id tags .relation r.md pp.skip
       | none => mk (.polygon polygon) "relation" r.id tags .relation r.md pp.skip
